@@ -1,17 +1,18 @@
 package main
 
 import (
-	"crypto/sha256"
-	"encoding/hex"
 	"bufio"
 	"bytes"
 	stdflate "compress/flate"
 	stdgzip "compress/gzip"
 	stdzlib "compress/zlib"
+	"crypto/sha256"
+	"encoding/hex"
 	"errors"
 	"fmt"
 	"io"
 	"strings"
+	"sync/atomic"
 	"time"
 
 	"github.com/intel/fastgo/compress/flate"
@@ -21,13 +22,13 @@ import (
 
 // StreamSpec names compressed bytes: synthesised, produced by a writer (fastgo or stdlib), or explicit.
 type StreamSpec struct {
-	Kind  string     `json:"kind"` // synth | fast | std | hex | concat
-	Synth *SynthSpec `json:"synth,omitempty"`
-	W     *WCase     `json:"w,omitempty"`
-	Hex   string     `json:"hex,omitempty"`
+	Kind  string       `json:"kind"` // synth | fast | std | hex | concat
+	Synth *SynthSpec   `json:"synth,omitempty"`
+	W     *WCase       `json:"w,omitempty"`
+	Hex   string       `json:"hex,omitempty"`
 	Parts []StreamSpec `json:"parts,omitempty"`
-	Flip  []int      `json:"flip,omitempty"` // bit positions to flip after materialisation
-	Subst []int      `json:"subst,omitempty"` // pairs (byte offset, new value)
+	Flip  []int        `json:"flip,omitempty"`  // bit positions to flip after materialisation
+	Subst []int        `json:"subst,omitempty"` // pairs (byte offset, new value)
 }
 
 // Materialize returns the stream and what it decodes to.  strict: complete codes everywhere
@@ -36,6 +37,20 @@ func (s StreamSpec) Materialize() (stream, data []byte, strict bool, shape strin
 	switch s.Kind {
 	case "synth":
 		stream, data, strict, shape = s.Synth.Synthesize()
+		if strict && s.Synth.Fault == "" {
+			// self-check of the synthesiser: a stream it claims to be strictly valid must be accepted by
+			// compress/flate with exactly the data it claims; otherwise the generator is wrong, not the
+			// code under test: the case falls back to a stream compress/flate itself writes for the data
+			if so, sk, _ := stdInflate(nil, stream); sk != "EOF" || !bytes.Equal(so, data) {
+				atomic.AddInt64(&synthSelfCheckFailed, 1)
+				var b bytes.Buffer
+				w, _ := stdflate.NewWriter(&b, 6)
+				w.Write(data)
+				w.Close()
+				stream = b.Bytes()
+				shape += "~fallback"
+			}
+		}
 	case "fast", "std":
 		d := s.W.datas()
 		obs := RunW(s.W.Set, s.Kind == "std", d, s.W.Ops, 0)
@@ -74,6 +89,9 @@ func (s StreamSpec) Materialize() (stream, data []byte, strict bool, shape strin
 	return
 }
 
+// number of synthesised "strictly valid" streams that compress/flate did not accept as such
+var synthSelfCheckFailed int64
+
 // SrcSpec describes the source the Reader reads from.
 type SrcSpec struct {
 	Kind  string `json:"kind"`            // bufio | bytes.Reader | bytes.Buffer | strings.Reader | bytereader | plain
@@ -102,6 +120,7 @@ type schedSource struct {
 	delivered *int // bytes handed to the caller of the Reader so far (maintained by the runner)
 	gateAt    int  // value of *delivered when the source was first asked beyond the gate, -1 = never
 	termSeen  bool
+	log       []int // size of every delivery
 }
 
 func (s *schedSource) next(max int) int {
@@ -144,6 +163,9 @@ func (s *schedSource) Read(p []byte) (int, error) {
 		}
 		copy(p, s.data[s.pos:s.pos+n])
 		s.pos += n
+		if len(s.log) < 200000 {
+			s.log = append(s.log, n)
+		}
 		if s.pos == s.limit {
 			switch s.term {
 			case "eofdata":
@@ -194,7 +216,9 @@ type RObs struct {
 	After     []string // results of three further Reads: "n/kind"
 	Panic     string
 	Hang      bool
-	InKey     string // digest of the compressed input (and prior stream): cross-level comparison only when equal
+	ReadLog   [][2]int // (len(p), n) of every Read call of the main loop (capped)
+	SrcLog    []int    // bytes returned by every source Read that returned data or (0, nil) (capped)
+	InKey     string   // digest of the compressed input (and prior stream): cross-level comparison only when equal
 	SrcReads  int
 	GateAt    int
 	CtorErr   string
@@ -436,6 +460,9 @@ func RunR(api string, std bool, data []byte, dict []byte, sp SrcSpec, ctor strin
 			n, e := ra.r.Read(buf)
 			out.Write(buf[:n])
 			delivered += n
+			if len(o.ReadLog) < 60000 {
+				o.ReadLog = append(o.ReadLog, [2]int{k, n})
+			}
 			if e != nil {
 				ferr = e
 				break
@@ -471,6 +498,7 @@ func RunR(api string, std bool, data []byte, dict []byte, sp SrcSpec, ctor strin
 		if ss != nil {
 			o.SrcReads = ss.reads
 			o.GateAt = ss.gateAt
+			o.SrcLog = ss.log
 		}
 		o.Left, o.LeftKnown = left()
 	}()
